@@ -2,6 +2,7 @@ package main
 
 import (
 	"go/types"
+	"sort"
 	"strings"
 )
 
@@ -162,7 +163,11 @@ func (f *Frame) ghostWritesOf(fn *types.Func, callerPkg string) map[string]bool 
 			pc := f.prog.Contracts[c.PkgPath]
 			for _, a := range c.Anchored {
 				if a.Kind == "ghost" && a.GhostVar != "" {
-					out[c.PkgPath+"."+a.GhostVar] = true
+					if gp, gn := resolveGhostName(f.prog, c.PkgPath, a.GhostVar); gp != "" {
+						out[gp+"."+gn] = true
+					} else {
+						out[c.PkgPath+"."+a.GhostVar] = true
+					}
 				}
 			}
 			for _, a := range c.Assigns {
@@ -186,4 +191,34 @@ func (f *Frame) ghostWritesOf(fn *types.Func, callerPkg string) map[string]bool 
 	}
 	walk(fn, 0)
 	return out
+}
+
+// resolveGhostName: "alias.name" in a contract of package pkgPath denotes ghost variable `name` declared in the
+// contract file of the imported package called alias. Returns ("", "") for an unqualified or unknown name.
+func resolveGhostName(prog *Program, pkgPath, name string) (string, string) {
+	i := strings.Index(name, ".")
+	if i < 0 {
+		return "", ""
+	}
+	alias, member := name[:i], name[i+1:]
+	pk := prog.Pkgs[pkgPath]
+	if pk == nil {
+		return "", ""
+	}
+	var paths []string
+	for path := range pk.Imports {
+		paths = append(paths, path)
+	}
+	sort.Strings(paths)
+	for _, path := range paths {
+		if pk.Imports[path].Name != alias {
+			continue
+		}
+		if pc := prog.Contracts[path]; pc != nil {
+			if _, ok := pc.GhostVars[member]; ok {
+				return path, member
+			}
+		}
+	}
+	return "", ""
 }
